@@ -509,13 +509,20 @@ func (c *Ctx) readFullRule(r *Report, rule string, scope []*ssa.Function) {
 					// a merged error variable tested right at the merge: over the edge we came in by it holds a
 					// non-nil error (the failure just built), so only the non-nil side is taken
 					only := -1
-					if iff, ok := x.Instrs[len(x.Instrs)-1].(*ssa.If); ok && from != nil {
+					if iff, ok := x.Instrs[len(x.Instrs)-1].(*ssa.If); ok {
 						if cond, ok := iff.Cond.(*ssa.BinOp); ok && (cond.Op == token.EQL || cond.Op == token.NEQ) {
 							var tested ssa.Value
 							if isNilConst(cond.Y) {
 								tested = cond.X
 							} else if isNilConst(cond.X) {
 								tested = cond.Y
+							}
+							if _, isPhi := tested.(*ssa.Phi); tested != nil && !isPhi && tested != eV && c.nonNilError(tested, eV, 0) {
+								// an error just built (errors.Errorf / New / a wrapper of the read's error) is not nil
+								only = 0
+								if cond.Op == token.EQL {
+									only = 1
+								}
 							}
 							if ph, ok := tested.(*ssa.Phi); ok && ph.Block() == x {
 								for i, p := range x.Preds {
